@@ -40,6 +40,14 @@ pub enum Op {
     SerdeRoundTrip { j: usize },
     /// drop this thread's handle of shared expression j
     Drop { j: usize },
+    /// parse a text and put the expression into slot `slot` of the run's slot table, replacing (and
+    /// dropping) what was there; `version` numbers the publications of one slot. Only the slot's
+    /// publisher thread does this, so the sequence of versions is the same in every schedule.
+    Publish { slot: usize, version: u32, kind: Kind, form: Form, text: String, compile: bool },
+    /// evaluate whatever another thread has published in the slot (nothing, or any version)
+    EvalSlot { slot: usize, point: u32, mode: u8 },
+    /// take the expression out of the slot and drop the slot's handle
+    Unpublish { slot: usize },
 }
 
 impl Op {
@@ -53,6 +61,9 @@ impl Op {
             Op::Derive { .. } => "Derive",
             Op::SerdeRoundTrip { .. } => "SerdeRoundTrip",
             Op::Drop { .. } => "Drop",
+            Op::Publish { .. } => "Publish",
+            Op::EvalSlot { .. } => "EvalSlot",
+            Op::Unpublish { .. } => "Unpublish",
         }
     }
     pub fn shared_index(&self) -> Option<usize> {
@@ -73,6 +84,11 @@ pub struct Workload {
     pub shared: Vec<SharedSpec>,
     pub threads: Vec<Vec<Op>>,
     pub faults: Vec<FaultSpec>,
+    /// false: only the simulated threads hold the shared expressions (`Arc`s); each drops its handle
+    /// after its last use, so the LAST handle of an expression is dropped by some simulated thread
+    /// while others are still working (the end-of-run immutability check is then not possible)
+    #[serde(default = "yes")]
+    pub main_keeps_handles: bool,
 }
 
 impl Workload {
@@ -496,7 +512,61 @@ pub fn gen_workload(seed: u64, cfg: GenCfg) -> Workload {
             faults.push(FaultSpec { tid, op: pos as u32, nth: r.range(1, span) as u32 });
         }
     }
-    Workload { shared, threads, faults }
+    // dynamic sharing: in some runs one thread publishes expressions into a slot table over time
+    // (parse -> publish -> unpublish -> publish the next ...) while the others evaluate whatever is
+    // there: expressions are created by one thread, used by others and dropped by whoever comes last
+    if n_threads >= 2 && !cfg.with_faults && r.chance(3, 10) {
+        let n_slots = r.range(1, 2);
+        let publisher = r.below(n_threads);
+        for slot in 0..n_slots {
+            let n_versions = r.range(2, 4);
+            for version in 0..n_versions {
+                let kind = pick_kind(&mut r);
+                let form = if r.chance(1, 2) { Form::Flat } else { Form::Deep };
+                let n = r.range(2, 14).min(cfg.max_operands);
+                let text = gen_text(&mut r, kind, n);
+                let pos = r.below(threads[publisher].len() + 1);
+                // keep the versions of one slot in order: insert behind the previous publication
+                let after = threads[publisher]
+                    .iter()
+                    .rposition(|op| matches!(op, Op::Publish { slot: s, .. } | Op::Unpublish { slot: s } if *s == slot))
+                    .map(|p| p + 1)
+                    .unwrap_or(0);
+                let pos = pos.max(after);
+                threads[publisher].insert(pos, Op::Publish { slot, version: version as u32, kind, form, text, compile: !r.chance(1, 6) });
+                if r.chance(1, 2) {
+                    let p2 = r.range(pos + 1, threads[publisher].len());
+                    let p2 = p2.max(pos + 1);
+                    threads[publisher].insert(p2, Op::Unpublish { slot });
+                }
+            }
+        }
+        for (tid, t) in threads.iter_mut().enumerate() {
+            if tid == publisher {
+                continue;
+            }
+            for _ in 0..r.range(2, 6) {
+                let pos = r.below(t.len() + 1);
+                t.insert(pos, Op::EvalSlot { slot: r.below(n_slots), point: r.below(24) as u32, mode: r.below(4) as u8 });
+            }
+        }
+    }
+    let main_keeps_handles = r.chance(1, 2) || cfg.with_faults;
+    if !main_keeps_handles {
+        for t in threads.iter_mut() {
+            for j in 0..n_shared {
+                if let Some(last) = t.iter().rposition(|op| op.shared_index() == Some(j)) {
+                    if !matches!(t[last], Op::Drop { .. }) {
+                        t.insert(last + 1, Op::Drop { j });
+                    }
+                } else {
+                    let pos = r.below(t.len() + 1);
+                    t.insert(pos, Op::Drop { j });
+                }
+            }
+        }
+    }
+    Workload { shared, threads, faults, main_keeps_handles }
 }
 
 // ---------------------------------------------------------------------------------------------
@@ -543,5 +613,5 @@ pub fn gen_firstuse_workload(seed: u64) -> Workload {
         }
         threads.push(ops);
     }
-    Workload { shared: Vec::new(), threads, faults: Vec::new() }
+    Workload { shared: Vec::new(), threads, faults: Vec::new(), main_keeps_handles: true }
 }
